@@ -8,6 +8,7 @@ pub mod c27;
 pub mod c28;
 pub mod c29;
 pub mod c30;
+pub mod c31;
 pub mod c35;
 pub mod c37;
 pub mod c42;
@@ -39,6 +40,7 @@ pub fn dispatch(id: &str, args: &[String]) -> ! {
         "C33" => tokchecks::run("C33", args),
         "C36" => tokchecks::run("C36", args),
         "C37" => c37::run(args),
+        "C31" => c31::run(args),
         "C35" => c35::run(args),
         _ => {
             eprintln!("MACHINERY-ERROR unknown check {id}");
